@@ -30,7 +30,7 @@ def collect(ctx, s, props):
         if j["property"] not in props:
             continue
         rp = ctx.save_replay(f, os.path.basename(f))
-        ctx.violation("disp/%s" % j["op"]["op"], "after %d operations, %s: %s" % (len(j["path"]), {k: v for k, v in j["op"].items() if v}, j["detail"]), rp)
+        ctx.violation("disp/%s" % j["op"]["op"], "after %d operations, %s: %s" % (len(j.get("path") or []), {k: v for k, v in j["op"].items() if v}, j["detail"]), rp)
 
 
 def runs(ctx):
